@@ -670,8 +670,14 @@ def build_ugrid(r: dict) -> Built:
     if 'edge_node' in tables:
         ds['Mesh2_edge_nodes'] = conn([list(e) for e in edges], 2, (edim, two), 'edge_node_connectivity')
         mesh_attrs['edge_node_connectivity'] = 'Mesh2_edge_nodes'
+    # a boundary edge has one face; which of the two columns stays empty is up to the writer
+    # (left / right face convention): optionally put the missing entry first on odd edges
+    # (default: decided by the mesh itself, so that every generator built on this one covers both layouts)
+    mf = enc.get('edge_face_missing_first', sum(len(f) for f in faces) % 2 == 1)
+    edge_face_rows = [([None] + fs if (mf and len(fs) == 1 and e % 2 == 1) else fs + [None] * (2 - len(fs)))
+                      for e, fs in enumerate(edge_faces)]
     if 'edge_face' in tables:
-        ds['Mesh2_edge_faces'] = conn([fs + [None] * (2 - len(fs)) for fs in edge_faces], 2, (edim, two), 'edge_face_connectivity')
+        ds['Mesh2_edge_faces'] = conn(edge_face_rows, 2, (edim, two), 'edge_face_connectivity')
         mesh_attrs['edge_face_connectivity'] = 'Mesh2_edge_faces'
     if 'face_edge' in tables:
         ds['Mesh2_face_edges'] = conn(face_edges, maxn, (fdim, mdim), 'face_edge_connectivity')
@@ -703,7 +709,7 @@ def build_ugrid(r: dict) -> Built:
     if has_edge:
         grids['edge'] = ((edim,), (len(edges),))
     b = Built(r, ds, 'ugrid', grids, 'face', polys, centres)
-    b.extra = {'edges': edges, 'face_edges': face_edges, 'edge_faces': edge_faces,
+    b.extra = {'edges': edges, 'face_edges': face_edges, 'edge_faces': edge_faces, 'edge_face_rows': edge_face_rows,
                'face_faces': face_faces, 'has_edge': has_edge, 'fill': fill, 'maxn': maxn,
                'names': {'face_dim': fdim, 'node_dim': ndim, 'edge_dim': edim, 'max_dim': mdim, 'two_dim': two}}
     var_recipes = [v for v in r.get('vars', []) if v.get('kind') != 'edge' or has_edge]
@@ -737,6 +743,7 @@ def random_ugrid(rng: random.Random, max_w: int = 3, max_h: int = 3, **kw) -> di
         'edge_dim_declared': kw.get('edge_dim_declared', rng.random() < 0.4),
         'coords_as': kw.get('coords_as', 'vars'),
         'face_coords': kw.get('face_coords', None),
+        'edge_face_missing_first': kw.get('edge_face_missing_first', rng.random() < 0.35),
     }
     r = {'conv': 'ugrid', 'nodes': mesh['nodes'], 'faces': mesh['faces'], 'enc': enc}
     return r
